@@ -61,7 +61,7 @@ func refList(list []string, required bool, invertible bool, positive func(entry 
 	// all-inverted: exactly the requests the corresponding positive list does not match
 	for _, e := range neg {
 		if e == "*" {
-			return false, false // "-*" is not given a meaning by the documentation
+			return false, true // "-*": the corresponding positive entry "*" matches everything
 		}
 		if positive(e) {
 			return false, true
@@ -199,7 +199,7 @@ func main() {
 	L := c.Pick(3, 4)
 	c.Assume = []string{
 		"alphabets of rule entries and request attributes are the ones listed in DESIGN.md C01 (taken from the branches of evaluation_helpers.go)",
-		"all-inverted nonResourceURLs, inverted serviceAccounts, '-*' and entries with several trailing '*' are run for totality only: the documentation does not define them",
+		"all-inverted nonResourceURLs, inverted serviceAccounts and entries with several trailing '*' are run for totality only: the documentation does not define them",
 		"reference matcher = the property statement, written independently in h/c01/main.go",
 	}
 	var tasks []ev.Task
